@@ -24,9 +24,14 @@ def one(name: str) -> tuple:
 def main() -> int:
     names = sorted(n for n in os.listdir(os.path.join(VERIF, "benign")) if os.path.exists(os.path.join(VERIF, "benign", n, "patch.diff")))
     if len(sys.argv) > 1:
-        names = [n for n in names if any(n.startswith(a) for a in sys.argv[1:])]
+        names = [n for n in names if any(n.startswith(a) for a in sys.argv[1:] if not a.startswith("-"))] if any(not a.startswith("-") for a in sys.argv[1:]) else names
+    rows = []
     with Pool(14) as pool:
-        rows = pool.map(one, names)
+        for row in pool.imap_unordered(one, names, chunksize=1):
+            rows.append(row)
+            if "--progress" in sys.argv:
+                print(f"done {row[0]}", file=sys.stderr, flush=True)
+    rows.sort()
     fa = un = ok = 0
     for name, err, viol, unk in rows:
         status = "FALSE-ALARM" if viol else ("unknown" if unk else "ok")
